@@ -524,7 +524,8 @@ class LocalEngine(BaseEngine):
             Result: results of the computation
         """
         args = args or {}
-        compile_options = compile_options or {}
+        # a copy: the default compiler is added to the options below
+        compile_options = dict(compile_options or {})
         temp_run_options = {}
 
         if isinstance(program, collections.abc.Sequence):
